@@ -186,7 +186,10 @@ func downloadAndExtractArchive(url, destDir, description string) error {
 
 	// Use temporary extraction directory
 	tempDir := destDir + ".temp"
-	os.RemoveAll(tempDir)
+	// What a killed request left there must not become part of this copy.
+	if err := os.RemoveAll(tempDir); err != nil {
+		return fmt.Errorf("failed to clear temporary directory: %w", err)
+	}
 	if err := os.MkdirAll(tempDir, 0755); err != nil {
 		return fmt.Errorf("failed to create temporary directory: %w", err)
 	}
